@@ -1377,3 +1377,23 @@ pub fn gen_canon(thorough: bool, seed: u64, c05: bool) -> Vec<Episode> {
     }
     eps
 }
+
+
+// ---------------------------------------------------------------------------------------------
+// C19
+
+/// C19: batches of random draws, single-threaded and on concurrent threads
+pub fn gen_c19(thorough: bool, _seed: u64) -> Vec<Episode> {
+    let mut eps = Vec::new();
+    let threads = if thorough { 16 } else { 4 };
+    for n in 0..=12usize {
+        eps.push(Episode { n, tys: "both", ops: vec![json!({"op": "rand_begin", "n": n, "threads": 1, "count": 256})] });
+        eps.push(Episode { n, tys: "both", ops: vec![json!({"op": "rand_begin", "n": n, "threads": threads, "count": 256})] });
+    }
+    if thorough {
+        for n in [13usize, 14] {
+            eps.push(Episode { n, tys: "lut", ops: vec![json!({"op": "rand_begin", "n": n, "threads": 2, "count": 256})] });
+        }
+    }
+    eps
+}
